@@ -150,6 +150,7 @@ class Monitors:
                 try:
                     period = k.get("period", a[2] if len(a) > 2 else None)
                     mon.data_scs.append((period, r))
+                    mon.events.append(("scs", {"period": period, "states": k.get("states", a[0] if a else None)}))
                 except Exception:  # noqa: BLE001
                     pass
                 return r
@@ -157,6 +158,30 @@ class Monitors:
             sim.create_data_scs = scs_w
         else:
             self.add("w3_unavailable")
+        # W8: event trace of the eager simulate() loop (advisory: localisation and evidence only)
+        self.events = []
+        if hasattr(sim, "solve_continuous_problem"):
+            o4 = sim.solve_continuous_problem
+            self._orig["solve_continuous_problem"] = o4
+
+            def cont_w(*a, **k):
+                mon.events.append(("cont", {"vf_arr": k.get("vf_arr"), "n_indexers": len(k.get("state_indexers") or {})}))
+                return o4(*a, **k)
+
+            sim.solve_continuous_problem = cont_w
+        if hasattr(sim, "_generate_simulation_keys"):
+            o5 = sim._generate_simulation_keys
+            self._orig["_generate_simulation_keys"] = o5
+
+            def keys_w(*a, **k):
+                r = o5(*a, **k)
+                try:
+                    mon.events.append(("keys", {"key_in": np.asarray(k.get("key", a[0] if a else None)), "key_out": np.asarray(r[0]), "n": len(r[1])}))
+                except Exception:  # noqa: BLE001
+                    pass
+                return r
+
+            sim._generate_simulation_keys = keys_w
         return self
 
     def uninstall(self):
@@ -227,6 +252,65 @@ def check_data_scs(mon, ref, states_by_period):
                 mon.violations.append({"key": "w3_segments", "what": f"period {period}: segment ids do not group rows by agent"})
             if int(seg["num_segments"]) != len(uniq):
                 mon.violations.append({"key": "w3_num_segments", "what": f"period {period}: num_segments={seg['num_segments']} but {len(uniq)} agents have rows"})
+
+
+def check_sim_trace(mon, T, df, init, vf_list, states):
+    """W8 (advisory): the recorded event sequence of one simulate() call against its trace
+    specification.  Returns a list of deviation strings (never verdicts: the internal call
+    pattern is not part of any property; deviations localise what the boundary oracles see).
+
+    spec: per period t = 0..T-1 in ascending order exactly one data-space construction with
+    period == t, one continuous-problem call and one key hand-out; the value array handed to
+    the policy function of period t is element t+1 of the list in use (None in the last
+    period); the states entering period t are the states the frame reports for period t
+    (period 0: the supplied initial states); the PRNG key entering period t is the carried
+    key that left period t-1."""
+    ev = getattr(mon, "events", None)
+    if not ev:
+        mon.add("w8_trace_unavailable")
+        return []
+    dev = []
+    scs = [e[1] for e in ev if e[0] == "scs"]
+    cont = [e[1] for e in ev if e[0] == "cont"]
+    keys = [e[1] for e in ev if e[0] == "keys"]
+    mon.add("w8_events_recorded", len(ev))
+    mon.add("w8_traces_checked")
+    if [e["period"] for e in scs] != list(range(T)):
+        dev.append(f"w8_period_order: data spaces built for periods {[e['period'] for e in scs]}, expected {list(range(T))}")
+    kinds = [e[0] for e in ev]
+    per = ["scs", "cont", "keys"]
+    if kinds != per * T:
+        dev.append(f"w8_event_order: {kinds[:9]}... is not (scs, cont, keys) x {T}")
+    if vf_list is not None and len(cont) == T:
+        for t, e in enumerate(cont):
+            want = vf_list[t + 1] if t < T - 1 else None
+            got = e["vf_arr"]
+            try:
+                same = (got is None and want is None) or (got is not None and want is not None and np.array_equal(np.asarray(got), np.asarray(want), equal_nan=True))
+            except Exception:  # noqa: BLE001
+                same = True
+            if not same:
+                dev.append(f"w8_value_array: period {t} is solved against another array than element {t + 1} of the list in use")
+    try:
+        N = len(next(iter(init.values())))
+        cols = {s_: np.asarray(df[s_].values).reshape(T, N) for s_ in states}
+        for t, e in enumerate(scs[:T]):
+            for s_ in states:
+                internal = np.asarray(e["states"][s_], dtype=float)
+                shown = np.asarray(cols[s_][t], dtype=float)
+                if not np.array_equal(internal, shown, equal_nan=True):
+                    dev.append(f"w8_states_vs_frame: period {t}: the states the loop works with differ from the frame's column {s_}")
+                    break
+                if t == 0 and not np.array_equal(internal, np.asarray(init[s_], dtype=float)):
+                    dev.append(f"w8_initial_states: period 0 starts from other values of {s_} than supplied")
+    except Exception:  # noqa: BLE001
+        mon.add("w8_states_uncheckable")
+    for t in range(1, min(len(keys), T)):
+        if not np.array_equal(keys[t]["key_in"], keys[t - 1]["key_out"]):
+            dev.append(f"w8_key_chain: key entering period {t} is not the carried key of period {t - 1}")
+    if dev:
+        mon.add("w8_trace_deviations", len(dev))
+    return dev
 
 
 # --------------------------------------------------------------------------------------
